@@ -469,6 +469,22 @@ func init() {
 			for k := 0; k < c.Pick(400, 4000); k++ {
 				ls = append(ls, "enc "+randInstr(c).String())
 			}
+			// integer arguments handed to NewLine in every width 0..4 that can hold them (0 bytes is the empty encoding of zero),
+			// followed by another instruction so that the decoder must consume exactly the instruction's own bytes
+			for k := 0; k < c.Pick(300, 3000); k++ {
+				i := randInstr(c)
+				for i.Op != "LOAD" && i.Op != "CATCH" && i.Op != "CROAK" {
+					i = randInstr(c)
+				}
+				if k%3 == 0 {
+					i.N = 0
+				}
+				w := byteWidth(i.N) + c.Rng.Intn(5-byteWidth(i.N))
+				if i.N == 0 {
+					w = c.Rng.Intn(5)
+				}
+				ls = append(ls, fmt.Sprintf("encw %d %s", w, i.String()))
+			}
 			for _, n := range numBoundaries {
 				ls = append(ls, "int "+strconv.FormatUint(uint64(n), 10))
 			}
@@ -528,7 +544,7 @@ func init() {
 		},
 		Exec: func(c *Ctx, line string) string {
 			f := strings.Fields(line)
-			if len(f) != 2 {
+			if len(f) != 2 && !(len(f) == 3 && f[0] == "encw") {
 				return "bad-op"
 			}
 			switch f[0] {
@@ -618,6 +634,35 @@ func init() {
 				}
 				c.Count("int")
 				return hx(w.Bytes())
+			case "encw":
+				if len(f) != 3 {
+					return "bad-op"
+				}
+				w, _ := strconv.Atoi(f[1])
+				i, ok := parseGInstr(f[2])
+				if !ok || w < 0 || w > 4 {
+					return "bad-op"
+				}
+				full := []byte{byte(i.N >> 24), byte(i.N >> 16), byte(i.N >> 8), byte(i.N)}
+				num := append([]byte{}, full[4-w:]...) // non-nil also when w = 0
+				var a []byte
+				switch i.Op {
+				case "LOAD":
+					a = vm.NewLine(nil, vm.LOAD, []string{i.A}, num, nil)
+				case "CATCH":
+					a = vm.NewLine(nil, vm.CATCH, []string{i.A}, num, modeB(i.M))
+				case "CROAK":
+					a = vm.NewLine(nil, vm.CROAK, nil, num, modeB(i.M))
+				default:
+					return "bad-op"
+				}
+				a = vm.NewLine(a, vm.HALT, nil, nil, nil)
+				got, perr, p := collect(a)
+				if p != nil || perr != nil || len(got) != 2 || got[0] != f[2] || got[1] != "HALT" {
+					c.Fail("C14", "roundtrip-width", fmt.Sprintf("%s with its integer in %d bytes, then HALT (%x) decoded as %v err=%v panic=%v", f[2], w, a, got, perr, p))
+				}
+				c.Count(fmt.Sprintf("encw:%d", w))
+				return hx(a)
 			case "enc":
 				i, ok := parseGInstr(f[1])
 				if !ok {
